@@ -17,6 +17,7 @@ Results: `ok ...`, `err`, `panic`.
 import Hts.Drv.Util
 import Hts.Model.SamText
 import Hts.Model.SamTextSpec
+import Hts.Model.SamBam
 namespace Hts.Drv.C06
 open Hts.Drv Hts.Model.SamText
 open Hts.Model.Coord (CigarOp)
@@ -176,8 +177,19 @@ def showReads : List (Except Fault Record) → List String
   | .ok r :: rest => ("ok " ++ showRecord r) :: showReads rest
   | .error e :: _ => [showFault e]
 
+def hexOfBam (b : List Hts.Model.Bam.Byte) : String := hexOfNats (b.map BitVec.toNat)
+
+/-- the memory form `toBam r`: reference indices, CIGAR words, packed sequence, qualities, raw aux fields -/
+def showMem (r : Record) : String :=
+  let b := Hts.Model.SamBam.toBam r
+  let optNat : Option Nat → String := fun x => match x with | none => "*" | some i => toString i
+  " ".intercalate [hexOfBam b.name, optNat b.ref, optNat b.mateRef,
+    showList (fun c : BitVec 32 => toString c.toNat) b.cigar, toString b.seqLen, hexOfBam b.seq,
+    (match b.qual with | none => "nil" | some q => hexOfBam q), showList hexOfBam b.aux |>.replace "," ";"]
+
 def handle (cmd : String) (args : List String) : Option String :=
   match cmd, args with
+  | "c06.mem", rec => do some ("ok " ++ showMem (← parseRecordToks rec))
   | "c06.fmt", f :: tab :: rec => do
     let ft := floatText (← parseFloatTab tab)
     some (showRes hexOfBytes (formatRecord ft (← parseFlagFmt f) (← parseRecordToks rec)))
@@ -199,14 +211,10 @@ def handle (cmd : String) (args : List String) : Option String :=
   | "c06.read", [h, tab, input] => do
     let ft := floatText (← parseFloatTab tab)
     let inp ← bytesOfHex input
-    match splitHeader (inp.length + 1) [] inp with
+    let hd ← parseHeader h
+    match readFile ft (fun _ => hd) inp with
     | none => some "newreader-err"
-    | some (hdrText, body) =>
-      if hdrText.isEmpty then some (" | ".intercalate (showReads (readAllNoHeader ft body)))
-      else
-        match ← parseHeader h with
-        | some hd => some (" | ".intercalate (showReads (readAll ft hd body)))
-        | none => none
+    | some rs => some (" | ".intercalate (showReads rs))
   | _, _ => none
 
 end Hts.Drv.C06
